@@ -927,6 +927,18 @@ def _target_names(t):
     return {n.id for n in ast.walk(t) if isinstance(n, ast.Name)}
 
 
+def _pattern_names(body):
+    """names bound by `case` patterns in the body (iteration-local temporaries)"""
+    out = set()
+    for st in body:
+        for n in ast.walk(st):
+            if isinstance(n, (ast.MatchAs, ast.MatchStar)) and n.name is not None:
+                out.add(n.name)
+            elif isinstance(n, ast.MatchMapping) and n.rest is not None:
+                out.add(n.rest)
+    return out
+
+
 def _conforms(P, v, typ) -> bool:
     k = typ[0]
     if k == 'int':
@@ -994,6 +1006,8 @@ def loop_rule(P, st, it, fr):
     ltypes = (c.loop_types or {}).get(k, {})
     assigned = _assigned(st.body)
     tnames = _target_names(st.target) if isinstance(st, ast.For) else set()
+    # names bound by `case` patterns are iteration-local: unreadable until bound again
+    tnames |= _pattern_names(st.body) - set(ltypes)
     missing = sorted(assigned - tnames - set(ltypes))
     if missing:
         raise Unsupported(f'loop {k} of {c.short}: loop_types[{k}] lacks the assigned variables {missing}')
@@ -1034,6 +1048,9 @@ def loop_rule(P, st, it, fr):
     for n in sorted(assigned & set(ltypes)):
         t = ex.types.parse_str(ltypes[n], modname, tinfo.cls)
         P.write(fr.locals, n, P.fresh(t, P.fresh_name(n)))
+    for tn in tnames:
+        if tn not in ltypes:
+            P.write(fr.locals, tn, Opaque(f'loop-local {tn} read before it is bound in this iteration'))
     i = z3.Int(P.fresh_name('_i'))
     P.assume(i >= 0, fact=True)
     if it is not None:
